@@ -16,9 +16,18 @@ import argparse, json, os, re, shutil, subprocess, sys, tempfile, time
 from concurrent.futures import ThreadPoolExecutor
 
 ROOT = os.path.dirname(os.path.dirname(os.path.abspath(__file__)))
-OUT = os.path.join(ROOT, "campaigns", "none")
+CAMPAIGN = os.environ.get("NC_CAMPAIGN", "none")     # "none": None test -> truth test; "boundary": < <-> <=, > <-> >=
+OUT = os.path.join(ROOT, "campaigns", CAMPAIGN)
 SITES = os.path.join(OUT, "sites.json")
 RESULTS = os.environ.get("NC_RESULTS") or os.path.join(OUT, "results.json")
+PRIMARY = {'dns/message.py': ['C03', 'C14', 'C16', 'C08'], 'dns/zone.py': ['C10', 'C09', 'C11', 'C15'],
+           'dns/versioned.py': ['C12', 'C11', 'C10'], 'dns/query.py': ['C18', 'C13'], 'dns/resolver.py': ['C16', 'C17'],
+           'dns/name.py': ['C01', 'C06', 'C15', 'C04'], 'dns/rdata.py': ['C02', 'C05', 'C07', 'C04'],
+           'dns/rdataset.py': ['C07', 'C10', 'C09'], 'dns/rrset.py': ['C07', 'C03', 'C09'],
+           'dns/tokenizer.py': ['C04', 'C09', 'C05', 'C01'], 'dns/transaction.py': ['C10', 'C13'],
+           'dns/node.py': ['C10', 'C09', 'C11'], 'dns/rdtypes/svcbbase.py': ['C02', 'C05', 'C04'],
+           'dns/edns.py': ['C02', 'C03', 'C04'], 'dns/wirebase.py': ['C02', 'C01', 'C04'],
+           'dns/rdtypes/util.py': ['C02', 'C05', 'C15'], 'dns/btreezone.py': ['C20', 'C11', 'C10']}
 PAT_NOT = re.compile(r"([A-Za-z_][\w\.]*(?:\[[^\]]*\])?(?:\([^()]*\))?) is not None")
 PAT_IS = re.compile(r"([A-Za-z_][\w\.]*(?:\[[^\]]*\])?(?:\([^()]*\))?) is None")
 DESEL = ["--deselect", "tests/test_name.py::NameTestCase::testFromUnicodeIDNA2008",
@@ -37,7 +46,43 @@ def anchors():
     return files
 
 
+def plan_boundary():
+    import ast
+    swap = {ast.Lt: ("<", "<="), ast.LtE: ("<=", "<"), ast.Gt: (">", ">="), ast.GtE: (">=", ">")}
+    sites = []
+    for f, props in sorted(anchors().items()):
+        if f.startswith("dns/rdtypes/") and f.count("/") >= 3:
+            continue
+        text = open("/repo/" + f).read()
+        src = text.splitlines()
+        seen = set()
+        for node in ast.walk(ast.parse(text)):
+            if not (isinstance(node, ast.Compare) and len(node.ops) == 1 and type(node.ops[0]) in swap):
+                continue
+            l, r = node.left, node.comparators[0]
+            if l.end_lineno != r.lineno:
+                continue
+            line = src[l.end_lineno - 1]
+            seg = line[l.end_col_offset:r.col_offset]
+            a, b = swap[type(node.ops[0])]
+            if seg.strip() != a:
+                continue
+            new = line[:l.end_col_offset] + seg.replace(a, b, 1) + line[r.col_offset:]
+            key = (l.end_lineno, l.end_col_offset)
+            if key in seen:
+                continue
+            seen.add(key)
+            pp = [q for q in PRIMARY.get(f, sorted(props)) if q in props] or sorted(props)
+            sites.append({"id": "%s:%d:%d" % (f, l.end_lineno, l.end_col_offset), "file": f, "line": l.end_lineno,
+                          "old": line, "new": new, "props": pp})
+    os.makedirs(OUT, exist_ok=True)
+    json.dump(sites, open(SITES, "w"), indent=1)
+    print(len(sites), "sites")
+
+
 def plan():
+    if CAMPAIGN == "boundary":
+        return plan_boundary()
     sites = []
     for f, props in sorted(anchors().items()):
         if f.startswith("dns/rdtypes/") and f.count("/") >= 3:
